@@ -89,7 +89,16 @@ type Axiom struct {
 	Clause  *Clause
 }
 
+// ModSet is a named, parameterised list of modifies targets.
+type ModSet struct {
+	PkgPath string
+	Name    string
+	Params  []SBinder
+	Targets []SExpr
+}
+
 type ContractSet struct {
+	ModSets map[string]*ModSet
 	Axioms  []*Axiom
 	Funcs   map[string]*FuncContract // pkgpath + "::" + key
 	Specs   map[string]*SpecFunc     // pkgpath + "::" + name
@@ -98,14 +107,14 @@ type ContractSet struct {
 }
 
 func NewContractSet() *ContractSet {
-	return &ContractSet{Funcs: map[string]*FuncContract{}, Specs: map[string]*SpecFunc{}}
+	return &ContractSet{Funcs: map[string]*FuncContract{}, Specs: map[string]*SpecFunc{}, ModSets: map[string]*ModSet{}}
 }
 
 var labelRe = regexp.MustCompile(`^\[([A-Za-z0-9_.]+)\]\s*`)
 var propsRe = regexp.MustCompile(`^@([A-Z0-9,]+)\s+`)
 
 var clauseKeywords = map[string]bool{
-	"func": true, "iface": true, "fieldfunc": true, "spec": true, "lemma": true, "axiom": true, "requires": true, "ensures": true, "modifies": true, "loop": true,
+	"func": true, "iface": true, "fieldfunc": true, "spec": true, "lemma": true, "axiom": true, "modset": true, "requires": true, "ensures": true, "modifies": true, "loop": true,
 	"invariant": true, "decreases": true, "trusted": true, "props": true, "ghost": true, "at": true,
 	"pure": true, "nopanic": true, "replay": true, "bounded": true, "skip": true, "note": true,
 }
@@ -180,6 +189,32 @@ func (cs *ContractSet) ParseContractFile(pkgPath, filename string, f *ast.File, 
 				return fmt.Errorf("%s:%d: duplicate contract for %s", filename, l.line, key)
 			}
 			cs.Funcs[id] = cur
+		case "modset":
+			// modset name(p T, ...) = target, target, ...
+			eq := strings.Index(rest, "=")
+			lp := strings.Index(rest, "(")
+			rp := strings.Index(rest, ")")
+			if eq < 0 || lp < 0 || rp < lp || rp > eq {
+				return fmt.Errorf("%s:%d: bad modset", filename, l.line)
+			}
+			ms := &ModSet{PkgPath: pkgPath, Name: strings.TrimSpace(rest[:lp])}
+			for _, p := range splitTop(rest[lp+1:rp], ',') {
+				p = strings.TrimSpace(p)
+				k := strings.IndexAny(p, " \t")
+				if k < 0 {
+					return fmt.Errorf("%s:%d: bad modset parameter %q", filename, l.line, p)
+				}
+				ms.Params = append(ms.Params, SBinder{p[:k], strings.TrimSpace(p[k:])})
+			}
+			for _, part := range splitTop(rest[eq+1:], ',') {
+				ex, err := ParseSpec(strings.TrimSpace(part))
+				if err != nil {
+					return fmt.Errorf("%s:%d: %v", filename, l.line, err)
+				}
+				ms.Targets = append(ms.Targets, ex)
+			}
+			cs.ModSets[pkgPath+"::"+ms.Name] = ms
+			cur, curLoop = nil, nil
 		case "axiom":
 			cl, err := mk(rest)
 			if err != nil {
